@@ -49,6 +49,26 @@ class VDict:
         return "VDict(%r)" % (self.items,)
 
 
+class SymKey:
+    """a dict key that is a tuple with SYMBOLIC leaves (e.g. a (low, high) range): hashed by identity; store_subscript decides - by
+    branching on the path condition - whether it equals a key already present"""
+
+    def __init__(self, key):
+        self.key = key
+
+    def __repr__(self):
+        return "SymKey(%r)" % (self.key,)
+
+
+def unkey(k):
+    """a VDict key as the program sees it"""
+    if isinstance(k, SymKey):
+        return k.key
+    if isinstance(k, tuple):
+        return VTuple([unkey(x) for x in k])
+    return k
+
+
 class VSet:
     """mutable set of known size of python-hashable constants"""
 
